@@ -39,44 +39,49 @@ type AssertRec struct {
 }
 
 type PathResult struct {
-	Decisions []int64
-	Outcome   string // end | panic:<msg> | abort:<reason> | stop:<why>
-	Asserts   []AssertRec
-	Reach     []string
-	Steps     int
-	Queries   int
-	Inputs    []InputRec
-	Funcs     map[string]bool
-	Forks     [][]int64
-	Observed  map[string]string
+	Decisions  []int64
+	Outcome    string // end | panic:<msg> | abort:<reason> | stop:<why>
+	Asserts    []AssertRec
+	Reach      []string
+	Steps      int
+	Queries    int
+	Inputs     []InputRec
+	Funcs      map[string]bool
+	Forks      [][]int64
+	Observed   map[string]string
 	choiceVals map[string]int64
+	EndModel   map[string]string
 }
 
 type Path struct {
-	in        *Interp
-	sess      *smt.Session
-	prefix    []int64
-	cursor    int
-	decisions []int64
-	pcSet     map[*smt.Term]bool
-	pcList    []*smt.Term
-	pcNeg     map[*smt.Term]bool
-	occ       map[string]int
-	inputs    []InputRec
-	steps     int
-	maxSteps  int
-	calls     map[*ssa.Function]int
-	forks     [][]int64
-	res       *PathResult
-	stubs     map[string]*ssa.Function
-	known     map[string]*smt.Term // active known-finding regions: id -> predicate
+	in         *Interp
+	sess       *smt.Session
+	prefix     []int64
+	cursor     int
+	decisions  []int64
+	pcSet      map[*smt.Term]bool
+	pcList     []*smt.Term
+	pcNeg      map[*smt.Term]bool
+	pcNames    map[string]bool
+	pcNegNames map[string]bool
+	occ        map[string]int
+	inputs     []InputRec
+	steps      int
+	maxSteps   int
+	calls      map[*ssa.Function]int
+	forks      [][]int64
+	res        *PathResult
+	stubs      map[string]*ssa.Function
+	known      map[string]*smt.Term // active known-finding regions: id -> predicate
 	catchDepth int
-	depth     int
-	initPhase bool
-	queries0  int
-	lastJSON  Value
-	jsonCalls int
-	lastPanic string
+	depth      int
+	initPhase  bool
+	queries0   int
+	lastJSON   Value
+	jsonCalls  int
+	lastPanic  string
+	merged     int
+	params     map[string]int64
 }
 
 func (p *Path) abortf(format string, args ...interface{}) {
@@ -106,6 +111,11 @@ func (p *Path) assume(c *smt.Term) {
 		}
 	}
 	p.sess.Assert(c)
+	n := p.sess.Name(c)
+	p.pcNames[n] = true
+	if x, ok := p.sess.P.NegOf[n]; ok {
+		p.pcNegNames[x] = true
+	}
 }
 
 // known tells whether c is syntactically decided by the path condition.
@@ -121,6 +131,18 @@ func (p *Path) decided(c *smt.Term) (bool, bool) {
 	}
 	if p.pcNeg[c] {
 		return false, true
+	}
+	if p.sess != nil {
+		n := p.sess.Name(c)
+		if p.pcNames[n] {
+			return true, true
+		}
+		if p.pcNegNames[n] {
+			return false, true
+		}
+		if x, ok := p.sess.P.NegOf[n]; ok && p.pcNames[x] {
+			return false, true
+		}
 	}
 	return false, false
 }
